@@ -71,8 +71,8 @@ def gen_call(rng, p):
     elif k == "pred_level":
         c["level"] = gen_level_pred(rng, p["levelmin"], p["levelmax"])
     elif k == "pred_none":
-        # a predicate no cell satisfies (stored values are positive): a fresh dataset returns an empty mesh group
-        c["values"] = [{"var": rng.choice(list(p["hydro_vars"])), "op": rng.choice(["lt", "le"]), "code": -1.0}]
+        # a predicate no cell satisfies (below every stored value): a fresh dataset returns an empty mesh group
+        c["values"] = [{"var": rng.choice(list(p["hydro_vars"])), "op": rng.choice(["lt", "le"]), "code": -1.0e15}]
     elif k == "cpu_list":
         c["cpu_list"] = rng.sample(range(1, p["ncpu"] + 1), rng.randrange(1, p["ncpu"] + 1))
     elif k == "sortby":
